@@ -70,6 +70,15 @@ class Lowering:
                 self.side += [z3.Implies(x >= 0, z3.And(z3.ToReal(r) <= x, x < z3.ToReal(r) + 1)),
                               z3.Implies(x < 0, z3.And(z3.ToReal(r) >= x, x > z3.ToReal(r) - 1))]
                 return r
+            if name == 'f.isclose':
+                self.n += 1
+                c = z3.Bool(f'close!{self.n}')
+                a, b, rel = args
+                diff = abs_r(a - b)
+                big = z3.If(abs_r(a) >= abs_r(b), abs_r(a), abs_r(b))
+                slack = 8 * U
+                self.side += [z3.Implies(diff <= rel * big * (1 - slack), c), z3.Implies(c, diff <= rel * big * (1 + slack))]
+                return c
             if name == 'f.round_nd':
                 self.n += 1
                 r = z3.Real(f'rnd_nd!{self.n}')
